@@ -49,8 +49,9 @@ TMODES = ['dt', 'dt', 'dta', 'tb', 'tbd', 'tbdt', 'tbdt', 'seq', 'seq', 'shape',
 GENMODE = {'dt': 'dt', 'dta': 'dt', 'tb': 'tb', 'tbd': 'tb', 'tbdt': 'tb', 'seq': 'seq', 'shape': 'shape',
            'dup': 'dup', 'dupr': 'dup', 'dupd': 'dup'}
 HAZ_FOR = {
-    'dt': ['dt_whole_and_member', 'dt_alloc_lbound', 'dt_allocated_inq', 'dt_whole_passed_on', 'dt_func_kw'],
-    'dta': ['dt_whole_and_member', 'dt_alloc_lbound', 'dt_whole_passed_on', 'dt_func_kw'],
+    'dt': ['dt_whole_and_member', 'dt_alloc_lbound', 'dt_allocated_inq', 'dt_whole_passed_on', 'dt_func_kw',
+           'dt_seq_element'],
+    'dta': ['dt_whole_and_member', 'dt_alloc_lbound', 'dt_whole_passed_on', 'dt_func_kw', 'dt_seq_element'],
     'tb': ['tb_generic', 'tb_nested_function'], 'tbd': ['tb_generic'],
     'tbdt': ['tb_nested_function', 'tb_generic'],
     'seq': ['seq_span', 'seq_kw', 'seq_offset2d'],
@@ -102,6 +103,8 @@ def case_flags(rng, idx, force=None):
         f['tb_generic'] = True
     if hz == 'dup_kw':
         f['kw_calls'] = True
+    if hz == 'dt_seq_element':
+        f['seq_actuals'] = True
     if hz == 'dt_func_kw':
         f['func_kernel'] = f['kw_calls'] = True
     if tmode == 'tbdt' and hz != 'tb_nested_function':
